@@ -234,10 +234,12 @@ impl UnifiedDiff {
                         lines
                             .iter()
                             .map(|(i, l)| {
-                                Ok((
-                                    *i,
-                                    String::from_utf8((l as &[u8]).trim_newlines().to_vec())?,
-                                ))
+                                // output that is not valid UTF-8 can only be shown escaped
+                                let line = (l as &[u8]).trim_newlines().to_vec();
+                                let line = String::from_utf8(line).unwrap_or_else(|err| {
+                                    outcome.escaping.escaped_expectation(err.as_bytes())
+                                });
+                                Ok((*i, line))
                             })
                             .collect::<Result<Vec<_>>>()?,
                     );
